@@ -239,16 +239,18 @@ Collect(c) ==
   /\ UNCHANGED <<used, owner, depth, stack, ntr, facEnv, returned>>
 
 (* ---- next-state relation -------------------------------------------------- *)
+SomeStart(t)  == \E f \in fns, o \in Opts : Start(t, f, o)
+SomeNested(t) == \E f \in fns, o \in Opts : Nested(t, f, o)
+SomeRedefine  == \E f \in fns : Redefine(f)
+SomeCollect   == \E c \in Codes : Collect(c)
 Step(t) == \/ HasBegin(t) \/ FastRead(t) \/ HasEnd(t) \/ FastGet(t)
            \/ Acquire(t) \/ ReCheck(t) \/ LockGet(t)
-           \/ TransformBegin(t) \/ TransformFail(t) \/ TransformOk(t)
-           \/ \E f \in fns, o \in Opts : Nested(t, f, o)
+           \/ TransformBegin(t) \/ TransformFail(t) \/ TransformOk(t) \/ SomeNested(t)
            \/ Store(t) \/ Release(t) \/ ReleaseFail(t) \/ Raise(t)
            \/ Instantiate(t) \/ Return(t)
            \/ MRelease(t) \/ MStore(t)
-Env == \/ \E f \in fns : Redefine(f)
-       \/ \E c \in Codes : Collect(c)
-Next == \/ \E t \in Threads : (Step(t) \/ \E f \in fns, o \in Opts : Start(t, f, o))
+Env == SomeRedefine \/ SomeCollect
+Next == \/ \E t \in Threads : (Step(t) \/ SomeStart(t))
         \/ Env
 Spec == Init /\ [][Next]_vars
 FairSpec == Spec /\ \A t \in Threads : WF_vars(Step(t))
